@@ -180,7 +180,7 @@ fn main() {
     let stats = explore_cases(ctx, &cases, opts, &c04_extra);
     guard(&stats, 5, true);
     if stats.get("deviating_calls_checked") == 0 {
-        machinery("vacuous: no deviating call was checked");
+        vacuous("vacuous: no deviating call was checked");
     }
     let cov = coverage(
         ctx,
